@@ -152,6 +152,28 @@ def coq_build(prop_id, timeout=900):
         return res
 
 
+def coqchk(prop_id, timeout=3000):
+    """coqchk -o on Properties_<id> and its whole dependency closure."""
+    cmd = 'timeout %d coqchk -o -silent -Q theories GMGP -Q gen GMGPGen GMGP.Properties_%s' % (timeout, prop_id)
+    rc, out, secs = sh(cmd, cwd=COQ, timeout=timeout + 30)
+    axioms, sect = [], None
+    bad = []
+    for line in out.split('\n'):
+        l = line.strip()
+        if l.startswith('* '):
+            sect = l[2:].split(':')[0]
+            rest = l.split(':', 1)[1].strip() if ':' in l else ''
+            if rest and rest != '<none>' and sect != 'Theory':
+                (axioms if sect == 'Axioms' else bad).append(rest)
+        elif l and sect in ('Axioms',) and not l.startswith('CONTEXT') and not l.startswith('='):
+            axioms.append(l)
+        elif l and sect and sect.startswith(('Constants/Inductives relying', 'Inductives whose')) and l != '<none>':
+            bad.append(sect + ': ' + l)
+    ok = rc == 0 and not bad
+    return {'ok': ok, 'secs': round(secs, 1), 'axioms': axioms, 'log': out,
+            'summary': ('coqchk ok, %d axioms in the closure' % len(axioms)) if ok else ('coqchk rc=%s %s' % (rc, '; '.join(bad)[:200]))}
+
+
 def axioms_summary(assump):
     s = set()
     for v in assump.values():
